@@ -41,7 +41,8 @@ def target(cfg, inv, i):
 def run_one(cfg, ctx, fp=True):
     world.reset()
     T, R, N = cfg['T'], cfg['R'], cfg['N']
-    peer = ScriptPeer(cfg['transport'], T, ctx, LETTERS)
+    peer = (cfg.get('peer_cls') or ScriptPeer)(cfg['transport'], T, ctx, LETTERS)
+    peer.watch = []
     loop = KLoop(peer, ctx=ctx)
     inv = world.goodwe.ET(HOST, 502 if cfg['transport'] == 'tcp' else 8899, 0, T, R)
     inv.set_keep_alive(cfg['ka'])
@@ -83,7 +84,21 @@ def run_one(cfg, ctx, fp=True):
     st, r = loop.run(main())
     loop.settle(0)
     ctx.fp = None
-    return dict(status=st, why=r if st == 'hang' else None, res=res, sent=list(peer.sent), offs=offs, done=done,
+    extra = {}
+    if cfg.get('peer_cls'):
+        # (C10's overlapping-callers stage: transports and sockets during and after the calls, then close())
+        import gc
+        opened = lambda: sum(1 for t in loop.kern.transports if not t.is_closing())   # noqa: E731
+        gc.collect(1)
+        extra = dict(watch=list(peer.watch), open_end=opened(), leaked=len(loop.kern.socks) - opened())
+
+        async def closing():
+            await inv._protocol.close()
+        loop.run(closing())
+        loop.settle(0)
+        gc.collect(1)
+        extra.update(open_closed=opened(), leaked_closed=len(loop.kern.socks) - opened())
+    return dict(extra, status=st, why=r if st == 'hang' else None, res=res, sent=list(peer.sent), offs=offs, done=done,
                 regs=[t[1] for t in tg], expect=[t[2] for t in tg], prior=bool(pri),
                 unhandled=[c.get('message', '') for c in loop.unhandled], t1=loop.time())
 
